@@ -16,9 +16,9 @@ def canary(row, rng):
         return None
     k = rng.choice(["tw", "fw"])
     if k == "tw":
-        row["tw"]["b"] = row["tw"]["b"][:-1] + [1]          # damage the stop byte
+        row["tw"]["b"] = row["tw"]["b"][:-1] + [2, 0]        # damage the stop byte: a field header cut short
     else:
-        row["fw"]["g"] = {"g": "struct", "f": [{"n": "zzz", "v": {"g": "int", "n": 1}}]}
+        row["fw"]["ok"] = False                              # the value path reports a failure
     return row
 
 
@@ -119,6 +119,11 @@ def run(ctx):
             if c["b"] != c["brev"]:
                 cases.append(dict(c, id=c["id"] + "-rev", b=c["brev"]))
         cases += invalid_cases(fam)
+        # the defaults the generated readers fill in: the same value as written by a writer that omits every unset field
+        # (the reference encoding writes the default of an unset optional field, so the generated literal is never asked for)
+        for c in fam:
+            if not c["v"]["f"]:
+                cases.append(dict(c, id=c["id"] + "-omitted", b=[0]))
     for c in cases:
         c.pop("brev", None)
     rows = run_lab(ctx, lab, cases)
